@@ -175,7 +175,7 @@ func c05() {
 	// Random deep triples.
 	rng := r.Rand("c05-random")
 	for i := 0; i < r.Pick(3000, 200000); i++ {
-		cfgSync := gen.RandomTreeConfig{Names: []string{"a", "b", "c"}, MaxDepth: 1 + rng.Intn(3), DirBias: 0.55, AbsentBias: 0.35}
+		cfgSync := gen.RandomTreeConfig{Names: []string{"a", "ab", "b"}, MaxDepth: 1 + rng.Intn(3), DirBias: 0.55, AbsentBias: 0.35}
 		cfgAll := cfgSync
 		cfgAll.Unsync = true
 		base := gen.RandomEntry(rng, cfgSync, 0, true)
